@@ -2,6 +2,7 @@ package main
 
 import (
 	"fmt"
+	"go/token"
 	"go/types"
 	"regexp"
 	"sort"
@@ -181,6 +182,8 @@ func checkC01(p *Prog, r *Report) {
 	approvalCleanupRule(p, r, "R10")
 	r.Rule("R11", "a write that waits for approval is answered once: whoever removes the pending entry and then answers (verdict or timeout) claims it — the comma-ok look-up and the delete share one critical section and every answer is sent only on the found edge (shared with C12-R2)")
 	claimRule(p, lsC01, ib, r, "R11")
+	r.Rule("R12", "a read is answered on a server and on a special feature and rejected on a client feature: truth table of the role tests in front of the Reply of the generic read handler over role ∈ {client, server, special}")
+	c01ReadRoleTable(p, ib, r, "R12")
 	r.Rule("R8", "the destination look-up decides 'exists' by equality of whole addresses: every hand-written element-wise comparison of two slices compares their lengths for equality (shared lint, C20-R6)")
 	sliceEqualityHelpers(p, r, "R8")
 	c01WhoMaySend(p, ib, r)
@@ -549,3 +552,54 @@ var _ = types.Identical
 
 // the Address() of the receiver itself, possibly through embedded structs (recv.Feature.Address())
 var recvAddressRe = regexp.MustCompile(`^recv(\.[A-Z]\w*)*\.Address\(\)$`)
+
+// c01ReadRoleTable: a read is answered with the function's data on a server and
+// on a special feature and rejected on a client feature — truth table of the
+// role tests in front of the Reply in the generic read handler.
+func c01ReadRoleTable(p *Prog, ib *inbound, r *Report, rule string) {
+	n := 0
+	for _, fn := range p.RepoFns("spine") {
+		if fn.Signature.Recv() == nil || !isNamed(fn.Signature.Recv().Type(), "spine", "FeatureLocal") || isWrapper(fn) {
+			continue
+		}
+		var reply *ssa.Call
+		forEachCallOwn(fn, func(site ssa.CallInstruction) {
+			if c, ok := site.(*ssa.Call); ok && ib.effect(site, nil) == "reply" {
+				reply = c
+			}
+		})
+		if reply == nil {
+			continue
+		}
+		n++
+		roleAtom := func(role string) func(c ssa.Value) (bool, bool) {
+			return func(c ssa.Value) (bool, bool) {
+				bo, ok := c.(*ssa.BinOp)
+				if !ok || (bo.Op != token.EQL && bo.Op != token.NEQ) {
+					return false, false
+				}
+				x, y := bo.X, bo.Y
+				if _, isK := constString(x); isK {
+					x, y = y, x
+				}
+				s, isK := constString(y)
+				px := Path(x)
+				if !isK || !(strings.HasSuffix(px, "."+FN("Feature.role")) || strings.HasSuffix(px, ".Role()")) {
+					return false, false
+				}
+				return true, (s == role) == (bo.Op == token.EQL)
+			}
+		}
+		var got []string
+		ok := true
+		for _, role := range []string{"client", "server", "special"} {
+			reach := reachableUnder(fn, reply, roleAtom(role))
+			got = append(got, fmt.Sprintf("%s: reply reachable=%v", role, reach))
+			if reach != (role != "client") {
+				ok = false
+			}
+		}
+		r.Check(rule, FnName(fn)+"|reply-by-role", ok, p.InstrPos(reply), strings.Join(got, "; ")+" (required: server and special answered, client rejected)")
+	}
+	r.Floor(rule, "functions of the local feature replying to a read", n, 1)
+}
